@@ -34,9 +34,12 @@ const (
 	// PCT: random task priorities, highest eligible runs; Depth priority change
 	// points at tape-drawn statement counts.
 	PCT
+	// FIFO: one canonical schedule - the running task keeps running until it
+	// blocks, then the task that has been waiting longest runs. No tape is consumed.
+	FIFO
 )
 
-func (p Policy) String() string { return [...]string{"coarse", "fine", "pct"}[p] }
+func (p Policy) String() string { return [...]string{"coarse", "fine", "pct", "fifo"}[p] }
 
 type Config struct {
 	Policy     Policy
@@ -64,6 +67,7 @@ type Task struct {
 	idleOnly bool
 	deadline time.Duration // simulated time at which a timed wait expires; 0 = none
 	timedOut bool
+	parkSeq  int64
 	done     bool
 	spawned  int
 	// Holding lists descriptions of sim locks held (diagnostics).
@@ -102,6 +106,7 @@ type Sim struct {
 	lastTask  *Task
 	stopping  atomic.Bool
 	idSeq     int
+	parkCount int64
 
 	// Probes are named reach counters ("this rare thing happened").
 	Probes map[string]int64
@@ -246,6 +251,8 @@ func (s *Sim) newTask(parent *Task, site string) *Task {
 func (s *Sim) park(t *Task, site string) {
 	t.parkedAt = site
 	s.mu.Lock()
+	s.parkCount++
+	t.parkSeq = s.parkCount
 	s.parked = append(s.parked, t)
 	s.mu.Unlock()
 	select {
@@ -551,6 +558,16 @@ func (s *Sim) pick(elig []*Task) *Task {
 				t.budget = 1
 			}
 		}
+	case FIFO:
+		t = elig[0]
+		if t != s.lastTask {
+			for _, c := range elig[1:] {
+				if c.parkSeq < t.parkSeq {
+					t = c
+				}
+			}
+		}
+		t.budget, t.sbudget = inf, inf
 	case Fine:
 		t = elig[s.Tapes.ChooseBias("sch", len(elig), 1, 2)]
 		t.budget = [...]int64{inf, 1, 2, 3, 5, 10, 30, 100, 300}[s.Choose("sch", 9)]
